@@ -41,7 +41,7 @@ func (s *memMetaStore) Put(ctx context.Context, p peer.ID, v []byte) error {
 
 const (
 	c12RawKinds     = 12
-	c12HostileKinds = 37
+	c12HostileKinds = 39
 )
 
 func genC12(seed uint64, tier string) *Plan {
@@ -69,6 +69,7 @@ func genC12(seed uint64, tier string) *Plan {
 	p.Knobs["hb_ms"] = 1000
 	p.Knobs["workers"] = float64(r.rng(1, 2))
 	p.Knobs["seen_ttl_ms"] = float64([]int{0, 0, 2000}[r.intn(3)])
+	p.Knobs["val_throttle"] = float64([]int{0, 0, 1, 2, 4}[r.intn(5)]) // few slots for asynchronous validation
 	p.Knobs["queue_size"] = float64([]int{2, 4, 32}[r.intn(3)])
 	// protocol limits as tuning knobs: small values put the boundary cases within reach
 	p.Knobs["max_ihave_len"] = float64([]int{2, 3, 5, 5000}[r.intn(4)])
@@ -121,6 +122,19 @@ func genC12(seed uint64, tier string) *Plan {
 			add("adv", int64(r.rng(62000, 70000)))
 			add("resend", i, 0)
 			add("resend", int64(1+r.intn(np)), 0) // (not the honest peer: the message may exceed the size limit)
+			add("probe")
+		case x < 7:
+			// the seen cache forgets a message at its sweep tick while the message cache still holds
+			// it; a replay is accepted and cached a second time, then the first copy leaves the window
+			p.Knobs["seen_ttl_ms"] = 2000
+			add("graft", i, 0)
+			add("adv-to-minute", int64(-r.rng(2100, 3800)))
+			add("pub", i, 0, int64(r.rng(8, 100)))
+			add("adv-to-minute", int64(r.rng(100, 900)))
+			add("resend", i, 0)
+			add("adv", int64(r.rng(1000, 7000)))
+			add("probe")
+			add("adv", int64(r.rng(1000, 3000)))
 			add("probe")
 		case x < 9:
 			// the peer stops reading, traffic fills its queue, the application changes its subscriptions
@@ -691,10 +705,41 @@ func c12Hostile(w *nodeWorld, fp *fakePeer, kind int, x int64) *pb.RPC {
 		from := append([]byte{0x00, 0x06}, 0xde, 0xad, 0xbe, 0xef, 0x00, 0x01)
 		m := &pb.Message{Data: w.mkData(16), Topic: &topic, From: from, Seqno: fp.nextSeqno(), Signature: r.bytes(64), Key: [][]byte{{}, {0x08, 0x01, 0x12, 0x00}, r.bytes(20)}[r.intn(3)]}
 		return rpcPub(m)
+	case 37: // one frame that repeats a GRAFT for a joined topic very often, from a peer that is refused (in back-off after its own PRUNE)
+		fp.send(rpcPrune("t0", uint64(r.rng(1, 120)), nil))
+		n := []int{40, 700, 6000, 40000}[r.intn(4)]
+		c := &pb.ControlMessage{}
+		for i := 0; i < n; i++ {
+			c.Graft = append(c.Graft, &pb.ControlGraft{TopicID: strp([]string{"t0", "t0", "t0", "t1"}[r.intn(4)])})
+		}
+		return &pb.RPC{Control: c}
+	case 38: // PRUNE whose peer-exchange entry carries a correctly signed envelope of the peer-record domain with a payload of another registered record type
+		k := genKey(r, 0)
+		id, _ := peer.IDFromPrivateKey(k)
+		env, err := record.Seal(&simOtherRecord{Note: r.bytes(r.rng(0, 30))}, k)
+		if err != nil {
+			return rpcPrune("t0", 1, nil)
+		}
+		eb, _ := env.Marshal()
+		return rpcPrune("t0", uint64(r.rng(0, 60)), []*pb.PeerInfo{{PeerID: []byte(id), SignedPeerRecord: eb}})
 	default: // extension handshake claiming everything + immediate partial
 		rpc := rpcExtensions(true, true)
 		rpc.Partial = &pb.PartialMessagesExtension{TopicID: &topic, GroupID: r.bytes(3), PartialMessage: r.bytes(10)}
 		rpc.TestExtension = &pb.TestExtension{}
 		return rpc
 	}
+}
+
+// simOtherRecord: a record type that is registered (as e.g. the relay reservation voucher is in
+// every libp2p host) and claims the peer-record envelope domain.
+type simOtherRecord struct{ Note []byte }
+
+func init() { record.RegisterType(&simOtherRecord{}) }
+
+func (r *simOtherRecord) Domain() string                 { return peer.PeerRecordEnvelopeDomain }
+func (r *simOtherRecord) Codec() []byte                  { return []byte{0x7f, 0x31} }
+func (r *simOtherRecord) MarshalRecord() ([]byte, error) { return append([]byte{1}, r.Note...), nil }
+func (r *simOtherRecord) UnmarshalRecord(b []byte) error {
+	r.Note = append([]byte(nil), b...)
+	return nil
 }
